@@ -637,14 +637,14 @@ mod fuse {
         /// Returns the maximum log₂ of segment size for fuse graphs that makes the
         /// graphs solvable with high probability.
         ///
-        /// This function should not be called for graphs larger than 2 *
-        /// [`Self::HALF_MAX_LIN_SHARD_SIZE`].
+        /// This function is meant for graphs of at most 2 *
+        /// [`Self::HALF_MAX_LIN_SHARD_SIZE`] vertices or slightly more: it is
+        /// applied to the largest shard, which exceeds that size by a few
+        /// percent for key sets just below a sharding threshold (and by more
+        /// in attempts that are discarded because the shards are unbalanced).
         fn lin_log2_seg_size(arity: usize, n: usize) -> u32 {
             match arity {
-                3 => {
-                    debug_assert!(n <= 2 * Self::HALF_MAX_LIN_SHARD_SIZE);
-                    (0.85 * (n.max(1) as f64).ln()).floor().max(1.) as u32
-                }
+                3 => (0.85 * (n.max(1) as f64).ln()).floor().max(1.) as u32,
                 _ => unimplemented!(),
             }
         }
